@@ -106,7 +106,7 @@ func (x *Exec) staticCall(st *State, c *ssa.Call, fn *ssa.Function, args []Val, 
 	if fn.Origin() != nil && len(fn.Blocks) == 0 {
 		target = fn.Origin()
 	}
-	if x.pure > 0 && !x.initMode && len(target.Blocks) > 0 && e.isRecursive(target) {
+	if (x.pure > 0 || funcPkgPath(target) == specPkgPath) && !x.initMode && len(target.Blocks) > 0 && e.specFor(target) == nil && e.isRecursive(target) {
 		k(st, x.ufCall(st, st.heap, target, args))
 		return
 	}
@@ -647,6 +647,7 @@ type pureOutcome struct {
 	cond *Term
 	v    Val
 	st   *State
+	br   []*Term
 }
 
 func (x *Exec) pureCall(st *State, heap map[string]*Term, fn *ssa.Function, args []Val) Val {
@@ -662,11 +663,45 @@ func (x *Exec) pureCall(st *State, heap map[string]*Term, fn *ssa.Function, args
 		x.fail("spec function %s has no return path", fn.Name())
 	}
 	rt := fn.Signature.Results().At(0).Type()
-	r := outs[len(outs)-1].v
-	for i := len(outs) - 2; i >= 0; i-- {
-		r = iteVal(e, rt, outs[i].cond, outs[i].v, r)
+	return mergeOutcomes(e, rt, outs, 0)
+}
+
+// mergeOutcomes rebuilds the decision tree of a pure execution: outcomes arrive in DFS order,
+// each with the list of branch conditions taken; siblings differ first at one condition
+// (c on one side, not c on the other), so every condition appears once in the result.
+func mergeOutcomes(e *Engine, rt types.Type, outs []pureOutcome, depth int) Val {
+	if len(outs) == 1 {
+		return outs[0].v
 	}
-	return r
+	// find the first depth at which the outcomes disagree
+	for {
+		if depth >= len(outs[0].br) {
+			return outs[0].v
+		}
+		c := outs[0].br[depth]
+		same := true
+		for _, o := range outs[1:] {
+			if depth >= len(o.br) || o.br[depth] != c {
+				same = false
+				break
+			}
+		}
+		if !same {
+			break
+		}
+		depth++
+	}
+	c := outs[0].br[depth]
+	k := 1
+	for k < len(outs) && depth < len(outs[k].br) && outs[k].br[depth] == c {
+		k++
+	}
+	if k == len(outs) {
+		return outs[0].v
+	}
+	left := mergeOutcomes(e, rt, outs[:k], depth+1)
+	right := mergeOutcomes(e, rt, outs[k:], depth+1)
+	return iteVal(e, rt, c, left, right)
 }
 
 func (x *Exec) runPure(st *State, heap map[string]*Term, fn *ssa.Function, args []Val) []pureOutcome {
@@ -676,7 +711,7 @@ func (x *Exec) runPure(st *State, heap map[string]*Term, fn *ssa.Function, args 
 	x.pure++
 	savedTop := x.retCount
 	x.pushFrame(sub, fn, args, func(s *State, rs []Val) {
-		outs = append(outs, pureOutcome{cond: And(s.br...), v: rs[0], st: s})
+		outs = append(outs, pureOutcome{cond: And(s.br...), v: rs[0], st: s, br: append([]*Term{}, s.br...)})
 	})
 	x.runBlock(sub, fn.Blocks[0], nil)
 	x.pure--
